@@ -8,6 +8,8 @@ from .. import bits, fields
 from ..core import call_attr, calls_in, const, dotted, is_const, kwarg, norm, slice_parts, text, walk_local
 
 EXPLANATION = [
+    'C01.walrus: no assignment expression in bumble.hci captures the result of a comparison instead of the compared value (`x := d.get(k) is not None`).',
+    'C01.zip-star: no parser in bumble.hci unpacks `zip(*rows)`: list-valued packets keep their zero-entry form (and their columns stay lists).',
     'C01.wire-fields-init: every dataclass field that carries wire metadata is a constructor argument (no init=False): parsers build objects with cls(**fields) and serialisers read the instance dict.',
     'C01.class-identity: no packet class registered by a decorator inherits from another registered class without stating its own code (the registering decorators derive code and name only when the class does not have them yet, so the inherited ones would be used and the parent replaced in the table).',
     'C01.decorator-order: every HCI packet class that is a dataclass and is registered by a decorator is made a dataclass first (innermost decorator), so the registration decorator sees its fields and builds the field table.',
@@ -639,7 +641,19 @@ def wire_fields_init_rule(ctx):
     wire_fields_init(ctx, 'C01.wire-fields-init', ['bumble.hci'])
 
 
+def zip_star_rule(ctx):
+    from ..generic_rules import zip_star_unpack
+    zip_star_unpack(ctx, 'C01.zip-star', ['bumble.hci'])
+
+
+def walrus_rule(ctx):
+    from ..generic_rules import walrus_compare
+    walrus_compare(ctx, 'C01.walrus', ['bumble.hci'])
+
+
 RULES = [
+    ('C01.walrus', walrus_rule),
+    ('C01.zip-star', zip_star_rule),
     ('C01.wire-fields-init', wire_fields_init_rule),
     ('C01.class-identity', class_identity_rule),
     ('C01.decorator-order', decorator_order_rule),
